@@ -22,14 +22,17 @@ MANIFEST = {
             'handshake_any_chunking (+_noprss, handshake_waits: pid and exactly 16 bytes per expected key recovered, following '
             'frames untouched, nothing consumed early), receive_commutes / receive_gets_own_payload / buffer_empty_iff (any '
             'interleaving of receive(pc) calls and arrivals with distinct labels: each receive gets the payload of its label; '
-            'buffer empty iff sends and receives match). The model is executed (vm_compute) against real MessageExchanger '
-            'objects call by call on every run.',
+            'buffer empty iff sends and receives match), framing_end_to_end (parser and buffers composed: any chunking of the '
+            'stream of any distinct-label message list with receive calls placed anywhere between the data_received calls: a '
+            'receive obtains (pc,p) iff (pc,p) was sent and receive(pc) called; no byte left). The model is executed '
+            '(vm_compute) against real MessageExchanger objects call by call on every run.',
     'note': 'Trusted: Coq kernel+vm_compute; the Gallina model of send/data_received/receive and of the key-subset selection '
             '(Frame.matching = itertools.combinations filter) is tied to asyncoro.py/runtime.py by exact per-call comparison '
             '(state, leftover bytes, dict order, resolved futures, stored keys), not verified from the Python source. '
             'Theorems assume pairwise distinct labels (C09) and one receive per label; with a repeated label the code raises '
-            'AttributeError inside data_received (modelled as DupError, compared on a small error stream). The parser and the '
-            'buffer theorems are composed in the statement text, not by one end-to-end Coq theorem. asyncio/TCP delivering '
+            'AttributeError inside data_received (modelled as DupError, compared on a small error stream). The end-to-end theorem '
+            'starts after the handshake (handshake_any_chunking covers handshake followed by frames at parser level). '
+            'Model inputs are written as hex strings (Buffers.hx) and labels printed as 8 bytes (enc_q), a few directly. asyncio/TCP delivering '
             'the written bytes in order is assumed. Payload sizes in the Coq comparison are a few hundred bytes; KB-sized '
             'payloads are run against the oracle only.',
     'technique': 'Coq proof (parser homomorphism step(c1++c2) = step;step, invariant over histories) + vm_compute correspondence with real MessageExchanger',
@@ -108,7 +111,13 @@ def lab(b8):
 
 def pc_expr(pc):
     """Coq expression for a label, avoiding long numerals (slow to parse): dec_q of its 8 bytes."""
-    return '(dec_q %s)' % zlist(list((pc % 2 ** 64).to_bytes(8, 'little')))
+    return '(dec_q %s)' % hexlit((pc % 2 ** 64).to_bytes(8, 'little'))
+
+
+def hexlit(bs):
+    """Coq expression for a byte list: hex string decoded by Buffers.hx (one token; long list
+    literals are slow to parse)."""
+    return '(hx "%s")' % bytes(bs).hex()
 
 
 def model_obs(r):
@@ -182,7 +191,7 @@ def coq_inputs(inputs):
     parts = []
     for kind, v in inputs:
         if kind == 'C':
-            parts.append('Chunk %s' % zlist(list(v)))
+            parts.append('Chunk %s' % hexlit(v))
         else:
             parts.append('Receive %s' % pc_expr(v))
     return '[' + '; '.join(parts) + ']'
@@ -199,6 +208,15 @@ def run(ctx):
                 'its arrival; distinct = distinct (stream, chunking, interleaving)')
     ctx.explanation = ('theorems for all streams/chunkings/interleavings; Coq `sim` (Frame.step + Buffers) compared call by '
                        'call with real MessageExchanger objects; independent oracle: payload obtained under pc == payload sent under pc')
+
+    vcount = {}
+
+    def violate(sig, detail):
+        """at most 3 replays per failing class (a broken parser fails thousands of cases)"""
+        cls = sig.split(' m=')[0]
+        vcount[cls] = vcount.get(cls, 0) + 1
+        if vcount[cls] <= 3:
+            ctx.violation(sig, detail)
 
     rt_frames = fn.make_runtime(2, 0, 1)
     exprs, meta = [], []
@@ -249,7 +267,7 @@ def run(ctx):
                 if extra and not bad:
                     bad = 'unexpected buffered labels %s' % extra[:5]
             if bad:
-                ctx.violation('framing-misdelivery %s' % kind, {'what': bad, 'msgs': [[pc, p.hex()] for pc, p in msgs],
+                violate('framing-misdelivery %s' % kind, {'what': bad, 'msgs': [[pc, p.hex()] for pc, p in msgs],
                                                                    'inputs': key.get('inputs', key.get('cuts'))})
         ctx.case(key, nontrivial=nontrivial, kind=kind)
         if with_model:
@@ -265,7 +283,7 @@ def run(ctx):
             ex.send(pc, p)
         s = tr.take()
         if s != b''.join(enc_ref(pc, p) for pc, p in msgs) or ex.nbytes_sent != len(s):
-            ctx.violation('send-encoding', {'msgs': [[pc, p.hex()] for pc, p in msgs], 'sent': s.hex()[:400]})
+            violate('send-encoding', {'msgs': [[pc, p.hex()] for pc, p in msgs], 'sent': s.hex()[:400]})
         return s
 
     def rand_payload(n):
@@ -295,9 +313,9 @@ def run(ctx):
         s = stream_of([(pc, p)])
         got = struct.unpack_from('<qI', s)
         if got != (pc, len(p)) or s[12:] != p:
-            ctx.violation('send-encoding', {'pc': pc, 'payload': p.hex()})
+            violate('send-encoding', {'pc': pc, 'payload': p.hex()})
         cexprs.append('(encode (%s, %s), match try_frame (%s ++ [7; 7]) with Some (pc, p, r) => Some (enc_q pc, p, r) | None => None end)'
-                      % (pc_expr(pc), zlist(list(p)), zlist(list(s))))
+                      % (pc_expr(pc), hexlit(p), hexlit(s)))
         ctx.case({'codec': [pc, p.hex()]}, nontrivial=True, kind='codec')
 
     # a few labels written/printed as plain numerals (everything else goes through 8-byte lists)
@@ -306,7 +324,7 @@ def run(ctx):
 
     # ---- A. exhaustive chunkings
     # A1: every composition of a single frame (payload 0, 1, 2 bytes): 2^11 + 2^12 + 2^13 streams
-    a1_model_quota = ctx.n(2500, 20000)
+    a1_model_quota = ctx.n(800, 20000)
     a1 = []
     for n in (0, 1, 2):
         msgs = [(rng.choice([LO, -1, HI, 513]), rand_payload(n))]
@@ -323,14 +341,15 @@ def run(ctx):
     s2 = stream_of(msgs2)
     a2 = [list(c) for r in range(0, 4) for c in itertools.combinations(range(1, len(s2)), r)]
     if ctx.tier != 'thorough':
-        a2 = [c for c in a2 if len(c) <= 2] + rng.sample([c for c in a2 if len(c) == 3], 500)
+        a2 = [c for c in a2 if len(c) <= 2] + rng.sample([c for c in a2 if len(c) == 3], 200)
     for cuts in a2:
         frame_case(msgs2, [('C', c) for c in fn.split_at(s2, cuts)], 'exhaustive-2frames', nontrivial=bool(cuts))
     msgs3 = [(LO, b''), (3, b'\x01\x02'), (-2, b'\x00\xff\x00\xff\x00')]
     s3 = stream_of(msgs3)
     for r in range(0, 3):
         for cuts in itertools.combinations_with_replacement(range(0, len(s3) + 1), r):   # repeated cut = empty chunk
-            frame_case(msgs3, [('C', c) for c in fn.split_at(s3, list(cuts))], 'exhaustive-3frames', nontrivial=bool(cuts))
+            frame_case(msgs3, [('C', c) for c in fn.split_at(s3, list(cuts))], 'exhaustive-3frames', nontrivial=bool(cuts),
+                       with_model=(r < 2 or ctx.tier == 'thorough' or rng.random() < 0.4))
     ctx.extra['exhaustive'] = True
     ctx.log('A2 done')
 
@@ -416,7 +435,8 @@ def run(ctx):
                             else:
                                 carry = b''
                             inputs[ci] = ('C', data)
-                    frame_case(msgs, inputs, 'receive-interleaving n=%d' % n, nontrivial=True)
+                    frame_case(msgs, inputs, 'receive-interleaving n=%d' % n, nontrivial=True,
+                               with_model=(n < 4 or ctx.tier == 'thorough' or rng.random() < 0.2))
     ctx.log('D done')
 
     # ---- F. error stream: repeated labels (outside the property's hypothesis; model says DupError / OldFuture)
@@ -456,7 +476,7 @@ def run(ctx):
                         s = hello + trc.take()
                         nkeys = 0 if np_ else sum(1 for S in itertools.combinations(range(m), m - t) if S[0] == c and sv in S)
                         if len(hello) != 2 + 16 * nkeys:
-                            ctx.violation('handshake-hello-length', {'m': m, 't': t, 'client': c, 'server': sv, 'no_prss': np_,
+                            violate('handshake-hello-length', {'m': m, 't': t, 'client': c, 'server': sv, 'no_prss': np_,
                                                                      'len': len(hello), 'want': 2 + 16 * nkeys})
                         styles = ['bytes', 'random', 'whole'] if (m <= 4 or ctx.tier == 'thorough') else [rng.choice(['bytes', 'random', 'random', 'whole'])]
                         for style in styles:
@@ -489,7 +509,7 @@ def run(ctx):
                                         partial_seen = True
                                         if exs.peer_pid is not None or bytes(exs.bytes) != s[:fedn] or \
                                                 set(getattr(rt_s, '_prss_keys', {})) != set(own):
-                                            ctx.violation('handshake-consumed-early', {'m': m, 't': t, 'client': c, 'server': sv,
+                                            violate('handshake-consumed-early', {'m': m, 't': t, 'client': c, 'server': sv,
                                                                                        'no_prss': np_, 'cuts': cuts, 'fed': fedn})
                                 else:
                                     im.receive(v)
@@ -518,22 +538,30 @@ def run(ctx):
                                     if g != p:
                                         bad = 'frame after handshake: label %d got %r want %r' % (pc, g, p)
                             if bad:
-                                ctx.violation('handshake-wrong m=%d t=%d no_prss=%s' % (m, t, np_),
+                                violate('handshake-wrong m=%d t=%d no_prss=%s' % (m, t, np_),
                                               {'what': bad, 'm': m, 't': t, 'client': c, 'server': sv, 'no_prss': np_,
                                                'stream': s.hex(), 'cuts': cuts, 'inputs': [[k, v.hex() if k == 'C' else v] for k, v in inputs]})
                             key = {'m': m, 't': t, 'client': c, 'server': sv, 'no_prss': np_, 'stream': s.hex()[:80],
                                    'cuts': cuts, 'rcv': [[i, v] for i, (k, v) in enumerate(inputs) if k == 'R']}
                             ctx.case(key, nontrivial=True, kind='handshake %s%s' % (style, ' no_prss' if np_ else ''))
                             hs_n += 1
-                            exprs.append('sim_c_mt %s %s %s %s (None, []) [] %s' % (blit(np_), natlit(m), natlit(t), natlit(sv), coq_inputs(inputs)))
-                            meta.append(('handshake', key, im.obs, False))
+                            if m <= 4 or ctx.tier == 'thorough' or rng.random() < 0.5:
+                                exprs.append('sim_c_mt %s %s %s %s (None, []) [] %s' % (blit(np_), natlit(m), natlit(t), natlit(sv), coq_inputs(inputs)))
+                                meta.append(('handshake', key, im.obs, False))
     ctx.log('E done: %d handshakes; evaluating %d model traces + %d codec expressions in Coq' % (hs_n, len(exprs), len(cexprs)))
     ctx.extra['independent_oracle_checks'] = stats['oracle_checks']
 
     # ---- model evaluation and exact comparison
     if ok:
         pre = 'Require Import MPyC.Buffers.\nLocal Open Scope Z_scope.\n'
-        res = ctx.coq_eval(['MPyC.Frame'], exprs, preamble=pre, chunk=max(100, -(-len(exprs) // 12)), jobs=12)   # coqc start-up dominates: few big files
+        # coqc start-up dominates, so few big files; cases are dealt round-robin to balance the files
+        nfiles = 14
+        order = sorted(range(len(exprs)), key=lambda i: (i % nfiles, i))
+        res_p = ctx.coq_eval(['MPyC.Frame'], [exprs[i] for i in order], preamble=pre,
+                             chunk=max(50, -(-len(exprs) // nfiles)), jobs=nfiles)
+        res = [None] * len(exprs)
+        for i, r in zip(order, res_p):
+            res[i] = r
         mism = 0
         for r, (kind, key, obs, allow_dup) in zip(res, meta):
             d = compare(obs, r, allow_error=allow_dup)
@@ -542,7 +570,7 @@ def run(ctx):
                 if len(ctx.broken) < 20:
                     d.update({'kind': 'correspondence', 'stream': kind, 'case': key})
                     ctx.broken.append(d)
-        cres = ctx.coq_eval(['MPyC.Frame'], cexprs, preamble='Local Open Scope Z_scope.\n', chunk=500)
+        cres = ctx.coq_eval(['MPyC.Frame'], cexprs, preamble=pre, chunk=500)
         for r, (pc, p) in zip(cres, codec):
             want = (list(enc_ref(pc, p)), ('Some', (list(enc_ref(pc, b'')[:8]), list(p), [7, 7])))
             if r != want:
@@ -560,5 +588,7 @@ def run(ctx):
     ctx.notes.append('repeated labels: data_received raises AttributeError (bytes.set_result) on a second arrival under a label '
                      'whose payload is still buffered, and a second receive(pc) before arrival pops the registered Future; both are '
                      'outside C10 (distinct labels, C09) and agree with the model (DupError / OldFuture)')
+    if vcount:
+        ctx.extra['failing_cases_per_class'] = dict(vcount)
     if ctx.broken and not ctx.violations:
         ctx.unproved('C10 model/proof', {'broken': ctx.broken[:5]})
